@@ -78,10 +78,11 @@ def chain_behaviours(r):
 
 # ---------------------------------------------------------------- outcome histories (seeded)
 
-def gen_history(rng, n, rounds, T, lats, ring):
+def gen_history(rng, n, rounds, T, lats, ring, force=None):
     """One outcome history: rounds x n outcomes in 0..T (T = failed probe).  Regimes chosen to exercise ties, the
-    exact round at which an old outcome leaves the retained window, outages around the ring length and slow drifts."""
-    kind = rng.choice(["iid", "iid", "burst", "boundary", "ties", "drift", "mixed"])
+    exact round at which an old outcome leaves the retained window (for every ring slot, the first and the last in
+    particular), outages around the ring length and slow drifts.  force = (kind, first failing round)."""
+    kind = force[0] if force else rng.choice(["iid", "iid", "burst", "boundary", "boundary", "ties", "drift", "mixed"])
     base = [rng.choice(lats) for _ in range(n)]
     hist = []
     if kind == "iid":
@@ -94,11 +95,15 @@ def gen_history(rng, n, rounds, T, lats, ring):
         for r in range(rounds):
             hist.append([T if any(s <= r < s + l for s, l in wins[c]) else base[c] for c in range(n)])
     elif kind == "boundary":
+        # everybody answers alike (ties: the first member serves) except for single failures: member c fails at round
+        # r0 + c*gap and then every `period[c]` rounds, so one ring slot at a time decides, and the choice flips back
+        # exactly when that slot is overwritten
         same = rng.choice(lats)
-        r0 = rng.randrange(1, 6)
-        gap = rng.choice([1, 1, 2])
+        r0 = force[1] if force else rng.choice([0, 1, 2, 3, ring // 2, ring - 2, ring - 1, ring])
+        gap = rng.choice([1, 1, 2, 3])
+        period = [ring + rng.choice([0, 0, 1, 2, ring]) for _ in range(n)]
         for r in range(rounds):
-            hist.append([T if (r - r0 - c * gap) % (ring + rng.choice([0, 0, 0, 1])) == 0 and r >= r0 + c * gap else same for c in range(n)])
+            hist.append([T if r >= r0 + c * gap and (r - r0 - c * gap) % period[c] == 0 else same for c in range(n)])
     elif kind == "ties":
         for _ in range(rounds):
             o = rng.choice(lats + [T])
@@ -177,8 +182,8 @@ def design_configs(cx):
                              Conc=2, Callers='{"p1","p2"}', MaxSel=5)]
     return [model_consts(k, g3, PROBING + ["round-robin", "random"], AvailRing=3, LatRing=2, T=3, Alpha=tla_alpha(3, [1, 2, 3]),
                          Conc=3, Callers='{"p1","p2"}', MaxSel=6),
-            model_consts(k, g3, PROBING, AvailRing=2, LatRing=3, T=3, UnitNs=1, Alpha=tla_alpha(3, [0, 2, 3]), Conc=2),
-            model_consts(k, NAMES[:2], PROBING + ["round-robin"], AvailRing=4, LatRing=3, T=4, UnitNs=7, Alpha=tla_alpha(2, [1, 2, 3, 4]),
+            model_consts(k, NAMES[:2], PROBING, AvailRing=2, LatRing=3, T=3, UnitNs=1, Alpha=tla_alpha(2, [0, 2, 3]), Conc=2),
+            model_consts(k, NAMES[:2], PROBING + ["round-robin"], AvailRing=4, LatRing=3, T=4, UnitNs=7, Alpha=tla_alpha(2, [1, 3, 4]),
                          Conc=1, Callers='{"p1","p2","p3"}', MaxSel=6)]
 
 
@@ -270,7 +275,9 @@ def script_plans(cx):
         for pol in PROBING:
             ring = k["AvailRing"] if pol == "availability" else k["LatRing"]
             rounds = ring + (rng.randrange(ring // 2, ring + 8) if big else rng.randrange(6, ring // 4 + 8))
-            kinds[pol], scripts[pol] = gen_history(rng, n, rounds, T, lats, ring)
+            # two plans of every run probe the last and the first ring slot on purpose, the others draw their regime
+            force = ("boundary", ring - 1) if i % 5 == 2 else ("boundary", 0) if i % 5 == 4 else None
+            kinds[pol], scripts[pol] = gen_history(rng, n, rounds, T, lats, ring, force)
         mc = model_consts(k, group, PROBING, T=T, UnitNs=model_unit(unit, k["LatRing"]), Alpha=tla_alpha(n, lats + [T]), Conc=conc,
                           Script=tla_script(scripts))
         dc = driver_consts(group, T, unit, intv, conc, "udp" if udp else "tcp", use_def)
